@@ -3,9 +3,9 @@ package smt
 
 import (
 	"bufio"
-	"os"
 	"fmt"
 	"io"
+	"os"
 	"os/exec"
 	"strconv"
 	"strings"
